@@ -104,6 +104,8 @@ def run_probe(lifted, scratch):
             m.poke_sym(k, v, 1)
         for k, v in sim.get("init16", {}).items():
             m.poke_sym(k, v, 2)
+        for k, v in sim.get("init_addr", {}).items():      # "symbol+offset": byte
+            m.mem[m.expr(k)] = v & 0xff
         m.x = sim.get("x", 0); m.y = sim.get("y", 0)
         st = m.run(sim.get("func", "main"))
         got = {k: m.peek_sym(k, 1) for k in sim.get("expect", {})}
